@@ -473,7 +473,9 @@ class Report:
                 new.append((key, rep))
         for k, keys in known.items():
             print(f"KNOWN-FINDING: property={self.pid} {open_keys[k]['what']} [{k}; {len(keys)} case(s)]")
-        os.makedirs(os.path.join(VERIF, "replays"), exist_ok=True)
+        scratch = bool(os.environ.get("VERIF_NO_EVIDENCE"))
+        rdir = tempfile.mkdtemp(prefix="verif-replays-") if scratch else os.path.join(VERIF, "replays")
+        os.makedirs(rdir, exist_ok=True)
         seen = set()
         for n, (key, rep) in enumerate(new):
             if key in seen:
@@ -482,7 +484,7 @@ class Report:
             if len(seen) > 5:
                 print(f"  ... and more ({len(new)} violating cases in total); see evidence")
                 break
-            path = os.path.join(VERIF, "replays", f"{self.pid}-{len(seen)}.json")
+            path = os.path.join(rdir, f"{self.pid}-{len(seen)}.json")
             rep = dict(rep)
             rep.update({"property": self.pid, "key": key})
             with open(path, "w") as f:
@@ -495,9 +497,10 @@ class Report:
         ev = {"property_id": self.pid, "tier": self.tier, "seed": SEED, "level": level, "coverage": cov,
               "assumptions": self.assumptions, "wall_s": round(time.time() - self.t0, 2),
               "violations": len(new), "known_findings_hit": sorted(known)}
-        os.makedirs(os.path.join(VERIF, "evidence"), exist_ok=True)
-        with open(os.path.join(VERIF, "evidence", f"{self.pid}.json"), "w") as f:
-            json.dump(ev, f, indent=1, default=str)
+        if not scratch:  # detection self-tests on scratch copies never rewrite the evidence
+            os.makedirs(os.path.join(VERIF, "evidence"), exist_ok=True)
+            with open(os.path.join(VERIF, "evidence", f"{self.pid}.json"), "w") as f:
+                json.dump(ev, f, indent=1, default=str)
         print(f"{self.pid} [{self.tier}] states={cov['states']} transitions={cov['transitions']} "
               f"impl_traces={cov['traces_validated_against_impl']} evaluations={cov['evaluations']} "
               f"violations={len(new)} known={len(known)} wall={ev['wall_s']}s")
